@@ -28,6 +28,26 @@ META = {
 }
 
 
+USER_ALGO = 'vq_user_min_max'
+
+
+def register_user_algorithm():
+  """A user-registered algorithm (the public extension API): the min/max kernels
+  under another key. Recipes naming it are as reachable as any other."""
+  from ai_edge_quantizer import algorithm_manager as am
+  from ai_edge_quantizer import default_policy
+  from ai_edge_quantizer.algorithms.uniform_quantize import naive_min_max_quantize as mm
+  if am.is_algorithm_registered(USER_ALGO):
+    return
+  am.register_op_quant_config_validation_func(USER_ALGO, mm.check_op_quantization_config)
+  am.register_config_check_policy_func(USER_ALGO, default_policy.DEFAULT_CONFIG_CHECK_POLICY)
+  for op in am.get_supported_ops(R.MINMAX):
+    am.register_quantized_op(
+        USER_ALGO, op, am.get_init_qsv_func(R.MINMAX, op),
+        calibration_func=am.get_quantization_func(R.MINMAX, op, qtyping.QuantizeMode.CALIBRATE),
+        materialize_func=am.get_quantization_func(R.MINMAX, op, qtyping.QuantizeMode.MATERIALIZE))
+
+
 @st.composite
 def cases(draw):
   n = draw(st.integers(1, 6))
@@ -41,6 +61,8 @@ def cases(draw):
       if r['algo'] == R.NOQ and draw(st.booleans()):
         # a no_quantize rule may carry a config (update_quantization_recipe accepts one)
         r = R.rule(r['regex'], r['op'], R.NOQ, dict(draw(st.sampled_from(R.COMMON_CFGS))[1]))
+      if r['algo'] == R.MINMAX and draw(st.integers(0, 7)) == 0:
+        r = dict(r, algo=USER_ALGO)
       steps.append({'do': 'add', 'rule': r, 'enum': draw(st.booleans()),
                     'default_cfg_none': draw(st.integers(0, 5)) == 0})
     elif k == 8:
@@ -97,11 +119,14 @@ def build_recipe(qt, steps):
 
 
 def check_case(case):
+  register_user_algorithm()
   model_bytes = G.build(case['model'])
   qt = quantizer_mod.Quantizer(model_bytes)
   build_recipe(qt, case['steps'])
   recipe = qt.get_quantization_recipe()
   labels = ['rules=%d' % min(len(recipe), 6)]
+  if any(str(getattr(e['algorithm_key'], 'value', e['algorithm_key'])) == USER_ALGO for e in recipe):
+    labels.append('user_registered_algorithm')
   if any((e.get('op_config', {}).get('weight_tensor_config') or {}).get('block_size') for e in _norm(recipe)):
     labels.append('blockwise_block_size>0')
   if not recipe:
